@@ -431,6 +431,30 @@ impl World {
         parts.extend(rest);
         let mut line = if parts.is_empty() { "-".to_string() } else { parts.join(" ; ") };
         if self.annotate {
+            // slots whose own node ran its update closure during this line (hook H4), in order
+            let log = self.ctx.impl_.verif_take_update_log();
+            if !log.is_empty() {
+                let mut by_id: HashMap<u32, usize> = HashMap::new();
+                for (slot, o) in &self.objs {
+                    let id = match o {
+                        Obj::Stream(s) => Some(s.impl_.node.gc_node.verif_id()),
+                        Obj::Cell(c) => Some(c.impl_.node.gc_node.verif_id()),
+                        Obj::CSink(c) => Some(c.cell().impl_.node.gc_node.verif_id()),
+                        Obj::SLoop(l) => Some(l.stream().impl_.node.gc_node.verif_id()),
+                        Obj::CLoop(l) => Some(l.cell().impl_.node.gc_node.verif_id()),
+                        _ => None,
+                    };
+                    if let Some(id) = id {
+                        let e = by_id.entry(id).or_insert(*slot);
+                        if *slot < *e {
+                            *e = *slot;
+                        }
+                    }
+                }
+                let slots: Vec<String> =
+                    log.iter().filter_map(|id| by_id.get(id)).map(|s| s.to_string()).collect();
+                ann.push(format!("u={}", slots.join(",")));
+            }
             let q = self.ctx.impl_.verif_queue_lengths();
             let mut firing = 0;
             for o in self.objs.values() {
